@@ -17,7 +17,7 @@ class Contract:
                  modifies=(), stubs=None, stub_methods=None, defs=None, ufuncs=None, axioms=(), canaries=None,
                  on_yield=None, on_yield_from=None, yield_mods=(), setup=None, locals=None, consts=None,
                  assumptions=(), loop_modifies=None, check_encode=False, replay=None, generator=False,
-                 ghost_modifies=(), pure=False, notes="", bodyless=False, lemmas=None, cls=None,
+                 ghost_modifies=(), pure=False, notes="", bodyless=False, lemmas=None, cls=None, aux_ensures=None, aux_invariants=None, char_hints=None,
                  timeout_ms=None, frame_check=True, inline=False, forall_ghosts=(), watch_extra=None,
                  model_to_inputs=None, native=None, cuts=None, defaults=None, init_fields=None, volatile=(), local_raises=(),
                  lazy_opt=False, applies=None, inline_callees=(), post_vars=(), stmt_hooks=()):
@@ -62,6 +62,11 @@ class Contract:
         self.notes = notes
         self.bodyless = bodyless   # an assumed contract (no body is verified): external / trusted
         self.lemmas = lemmas or {}
+        # facts that only few obligations need (e.g. where CR/LF in a stored header can come from): they are proved like any
+        # other clause, but at a call site / loop head every obligation is first tried without them
+        self.char_hints = tuple(char_hints or ())     # see Ev.e_JoinedStr
+        self.aux_ensures = set(aux_ensures or ())
+        self.aux_invariants = {k: set(v) for k, v in (aux_invariants or {}).items()}
         self.cls = cls
         self.timeout_ms = timeout_ms
         self.frame_check = frame_check
@@ -439,7 +444,7 @@ def apply_contract(ev: Ev, contract: Contract, args, kwargs, node):
                 extra[g] = gv
                 qvars.extend(unpack(gv))
         f = with_old(lambda: spec_eval(cev, text, extra))
-        st.assume(mk_quant("forall", qvars, f) if qvars else f)
+        st.assume(mk_quant("forall", qvars, f) if qvars else f, aux="traces" if name in contract.aux_ensures else False)
     return result
 
 
